@@ -32,6 +32,22 @@ def signature(o):
                     missing.remove(x)
             sig["extra_all_helper"] = bool(extra) and all(HELPER.match(x or "") for x in extra)
             sig["missing"] = len(missing)
+    if sig["kind"] == "arity":
+        # C06 form: the two programs' SQL texts disagree in arity
+        m = re.search(r"base SQL returns (\[.*?\]), rewritten returns (\[.*?\])", det)
+        if m:
+            base_cols, rw_cols = eval(m.group(1)), eval(m.group(2))
+            bsql = getattr(o, "base_sql", "") or ""
+            star = lambda q: bool(re.search(r"SELECT (\w+\.)?\*[^()]*$", q)) or bool(re.search(r"\)\s*SELECT\s+\*", q))
+
+            def extra_helpers(more, fewer):
+                rest = list(more)
+                for c in fewer:
+                    if c in rest:
+                        rest.remove(c)
+                return bool(rest) and all(HELPER.match(x or "") for x in rest) and len(more) - len(fewer) == len(rest)
+            sig["base_leaks_helper_through_star"] = extra_helpers(base_cols, rw_cols) and star(bsql)
+            sig["rewritten_leaks_helper_through_star"] = extra_helpers(rw_cols, base_cols) and star(sql)
     if sig["kind"] == "names":
         m = re.search(r"SQLite returns columns (\[.*?\]), final frame is (\[.*?\])", det)
         if m:
